@@ -74,7 +74,7 @@ struct ParaRun : NodeEnv {
     void checkRam(const char *what, bool node, bool com, const std::set<int> &hit, bool shortRead = false) {
         for (size_t k = 0; k < g.size() && v.ok; k++) {
             bool reloaded = (g[k].type == CO_RESET_NODE && node) || (g[k].type == CO_RESET_COM && com); if (!reloaded || hit.count((int)k)) continue;
-            if (shortRead && k < ramPrev.size() && ramOf(k) == ramPrev[k]) { cov.hit("load-abandoned-after-short-read"); continue; }   // the load may be abandoned at the failing group
+            if (shortRead) cov.hit("short-read-other-groups-still-loaded");
             if (memcmp(S().paraRam[k], g[k].nvmModel.data(), g[k].size) != 0) { uint32_t b = 0; while (S().paraRam[k][b] == g[k].nvmModel[b]) b++; fail("para/reload", "group " + std::to_string(k) + " byte " + std::to_string(b) + " is " + hex(S().paraRam[k][b]) + " after " + what + ", last stored image has " + hex(g[k].nvmModel[b])); return; }
         }
         // NVM itself must equal the model everywhere (nothing else touched)
